@@ -42,7 +42,7 @@ def run_one(m, tier, suite):
         for prop in m["props"]:
             ev = os.path.join(tmp, "ev")
             r = subprocess.run([os.path.join(HERE, "check"), prop, "--tier", tier, "--repo", repo],
-                               capture_output=True, text=True, env={**os.environ, "VERIF_EVIDENCE_DIR": ev})
+                               capture_output=True, text=True, env={**os.environ, "VERIF_EVIDENCE_DIR": ev, "VERIF_CASE_TIMEOUT": "8"})
             first = [l for l in r.stdout.splitlines() if l.startswith("  clause=")][:1]
             verdicts[prop] = (r.returncode, first[0][:200] if first else r.stdout[-300:] if r.returncode != 1 else "")
         status = "caught" if all(v[0] == 1 for v in verdicts.values()) else "MISSED"
